@@ -309,6 +309,65 @@ def oracle_bspline(rng, n, R):
             R.fail("C17:bending_loss:bspline:raises", f"raises {type(e).__name__}: {str(e)[:140]}", **base)
 
 
+ALL_MODES = ["forward", "backward", "central", "forward_central_backward", "prewitt", "sobel", "gaussian", "bspline", None]
+
+
+def oracle_spacing(rng, n, R):
+    """anisotropic per-axis spacing in EVERY derivative mode: d/dx_a is divided by spacing[a] (and nothing else)"""
+    from deepali.core.flow import flow_derivatives
+    from deepali.core.enum import FlowDerivativeKeys
+    for it in range(n):
+        D = rng.choice([2, 3])
+        size = [[7, 9, 8][(it + d) % 3] for d in range(D)]            # never square / cubic
+        spacing = [[0.5, 2.0, 1.25][(it + d) % 3] for d in range(D)]   # pairwise different
+        u = rnd_field(rng, size)
+        ones = [1.0] * D
+        for mode in ALL_MODES:
+            mname = mode or "default"
+            base = {"size": size, "spacing": spacing, "mode": mname, "u": u.reshape(-1).tolist()}
+            R.tick("spacing")
+            try:
+                for order in (1, 2):
+                    keys = FlowDerivativeKeys.all(spatial_dims=D, order=order)
+                    a = flow_derivatives(u, which=keys, mode=mode, spacing=spacing)
+                    b = flow_derivatives(u, which=keys, mode=mode, spacing=ones)
+                    for k in keys:
+                        div = 1.0
+                        for ch in k.split("/d")[1]:
+                            div *= spacing["xyz".index(ch)]
+                        if not close(a[k], b[k] / div, 1e-9):
+                            R.fail(f"C17:flow_derivatives:{mname}:spacing-divisor",
+                                   f"{k} with spacing {spacing} is not {k} with unit spacing divided by {div:g}", key=k, **base)
+                # fields varying along a single axis a: loss(spacing = s) = loss(spacing = 1) / s[a]^k
+                for ax in range(D):
+                    x = coords(size)
+                    ua = torch.zeros_like(u)
+                    for c in range(D):
+                        ua[0, c] = torch.sin(0.7 * x[0, ax] + c) + 0.1 * x[0, ax] ** 2
+                    for fn in LOSSES:
+                        kw = dict(lam=1.0, mu=0.5)
+                        va = call(fn, ua, mode, spacing, "none", **kw)
+                        v1 = call(fn, ua, mode, ones, "none", **kw)
+                        power = {"bending": 4, "curvature": 4, "tv": 1}.get(fn, 2)
+                        if fn == "bending" and mode in ("sobel", "prewitt", None):
+                            # zero-padded cross smoothing makes mixed derivatives non-zero at the boundary (known finding)
+                            va, v1 = interior(va, 2), interior(v1, 2)
+                        if not close(va, v1 / spacing[ax] ** power, 1e-8):
+                            R.fail(f"C17:{fn}_loss:{mname}:axis-spacing",
+                                   f"field varying along axis {ax} only: {fn}(spacing={spacing}) != {fn}(spacing=1) / {spacing[ax]}^{power}",
+                                   axis=ax, **base)
+                # the default spacing is 2 / (n - 1) per axis
+                dflt = [2 / (n_ - 1) for n_ in size]
+                for fn in LOSSES:
+                    kw = dict(lam=1.0, mu=0.5)
+                    a = call(fn, u, mode, None, "mean", **kw)
+                    b = call(fn, u, mode, dflt, "mean", **kw)
+                    if not close(a, b, 1e-5):
+                        R.fail(f"C17:{fn}_loss:{mname}:default-spacing", f"spacing=None gives {float(a):.6g}, spacing=2/(n-1) per axis {float(b):.6g}", **base)
+            except Exception as e:  # noqa
+                R.fail(f"C17:flow_derivatives:{mname}:raises", f"raises {type(e).__name__}: {str(e)[:140]}", **base)
+
+
 def oracle_bspline_modes(rng, n, R):
     """every regulariser accepts mode='bspline' (output: one value per evaluated spline point, size (X - 3) * stride ...)"""
     for it in range(n):
@@ -450,6 +509,7 @@ def oracle(p):
     oracle_regs(rng, n, R)
     oracle_bspline(rng, max(n // 2, 4), R)
     oracle_bspline_modes(rng, max(n // 4, 3), R)
+    oracle_spacing(rng, max(n // 4, 3), R)
     oracle_lame(rng, max(n // 2, 4), R)
     oracle_ic(rng, max(n, 8), R)
     oracle_modules(rng, max(n // 2, 4), R)
